@@ -85,7 +85,8 @@ let show_written (pre : state) (post : state) : string list =
   | _ -> []
 
 let qlen (s : state2) : int = match s.wch with WNil -> 0 | WBuf (_, n) -> int_of_nat n
-let stored (s : state2) : string = match s.base.store with x :: _ -> sz x | [] -> "0"
+let stored (s : state2) : string =
+  (match s.base.store with x :: _ -> sz x | [] -> "0") ^ "#" ^ string_of_int (List.length s.base.store)
 
 let rx_state (s : state2) : string =
   Printf.sprintf "q=%d h=%d st=%s" (qlen s) (int_of_nat s.handled) (stored s)
